@@ -135,6 +135,93 @@ theorem editRestoreDiag_id {α : Type} (a z : α) (x : List (List α))
 example : editRestoreDiag (9 : Int) 0 [[5, 1], [1, 0]] = [[0, 1], [1, 0]] := by decide
 example : editRestoreDiag (9 : Int) 0 [[0, 1, 2], [1, 0, 3]] = [[0, 1, 2], [1, 0, 3]] := by decide
 
+
+/-! ### compiled kernels (round 3)
+
+Heap model: objects live at heap locations; locations `0 … n-1` hold everything that is *not*
+made by the calling function (cached results, fields of `self`, caller arguments — "shared").
+One kernel execution replaces the content of every object bound to a parameter the kernel
+writes by an arbitrary new content. -/
+
+/-- **Frame.** Whatever a kernel computes, an object that is not bound to one of its written
+parameters keeps its content. -/
+theorem kernel_call_frame {α : Type} (bs : List (Bind α)) (h : List α) (l : Nat)
+    (hl : ∀ b ∈ bs, b.written = true → b.loc ≠ l) : (applyCall h bs)[l]? = h[l]? :=
+  applyCall_frame bs h l hl
+
+/-- **Kernel calls are pure on shared objects.**  If the decidable check `kernelCallsClean`
+holds for a kernel table and a call-site table, then every history of executions of those call
+sites — with any placement `env` of the argument objects that puts the positively fresh ones
+outside the shared region `0 … n-1` (aliasing among shared objects and among parameters is
+allowed), and with any kernel computations `out` — leaves every shared object (cached result,
+field, caller argument) exactly as it was. -/
+theorem kernel_calls_preserve_shared {α : Type} (ks : List (String × List KParam))
+    (calls : List KCall) (hc : kernelCallsClean ks calls = true) (n : Nat)
+    (steps : List (KCall × (KArg → Nat) × (KArg → α)))
+    (hmem : ∀ s ∈ steps, s.1 ∈ calls)
+    (hfresh : ∀ s ∈ steps, ∀ a ∈ s.1.args, a.prov = .fresh → n ≤ s.2.1 a)
+    (h : List α) : (runSteps ks h steps).take n = h.take n := by
+  apply take_eq_of_getElem?
+  intro l hl
+  unfold runSteps
+  induction steps generalizing h with
+  | nil => rfl
+  | cons s t ih =>
+    simp only [List.foldl_cons]
+    rw [ih (fun s' hs' => hmem s' (List.mem_cons_of_mem _ hs'))
+          (fun s' hs' => hfresh s' (List.mem_cons_of_mem _ hs'))]
+    apply applyCall_frame
+    intro b hb hw
+    have hcs : s.1.args.all (argClean ks s.1.kernel) = true :=
+      List.all_eq_true.mp hc s.1 (hmem s (List.mem_cons_self))
+    obtain ⟨a, ha, hfr, hloc⟩ := callBinds_written_fresh ks s.1 hcs s.2.1 s.2.2 b hb hw
+    have := hfresh s (List.mem_cons_self) a ha hfr
+    omega
+
+/-- the hypothesis is needed: a call site that hands a shared object (location 0 < n) to a
+written parameter changes it -/
+example : runSteps [("k", [⟨"x", true, true, false⟩])] [1, 2]
+    [(⟨"s", "k", [⟨"x", .field, "f"⟩]⟩, fun _ => 0, fun _ => 9)] = [9, 2] := by decide
+example : kernelCallsClean [("k", [⟨"x", true, true, false⟩])] [⟨"s", "k", [⟨"x", .field, "f"⟩]⟩]
+    = false := by decide
+/-- … and is satisfiable: the same kernel on a fresh object (location 2 ≥ n = 2) -/
+example : runSteps [("k", [⟨"x", true, true, false⟩])] [1, 2, 3]
+    [(⟨"s", "k", [⟨"x", .fresh, ""⟩]⟩, fun _ => 2, fun _ => 9)] = [1, 2, 9] := by decide
+example : kernelCallsClean [("k", [⟨"x", true, true, false⟩])] [⟨"s", "k", [⟨"x", .fresh, ""⟩]⟩]
+    = true := by decide
+/-- a kernel or parameter missing from the table counts as written -/
+example : kernelCallsClean [] [⟨"s", "k", [⟨"x", .field, "f"⟩]⟩] = false := by decide
+
+/-! ### constructors: caller arguments are preserved (round 3) -/
+
+/-- **Caller-argument preservation.**  An object is built from `n` caller arguments (heap
+locations `0 … n-1`); some fields are bound to an argument object itself (`aliases`), all
+others to objects of their own.  If no edited field is an alias, then every history of in-place
+edits of fields — by the constructor, by mutators, by queries; arbitrary new contents — leaves
+every caller argument exactly as it was. -/
+theorem ctor_preserves_args {α : Type} (n : Nat) (aliases : List (String × Nat))
+    (own : String → Nat) (edits : List (String × α))
+    (hed : ∀ e ∈ edits, aliases.lookup e.1 = none) (h : List α) :
+    (editFields n aliases own h edits).take n = h.take n :=
+  take_eq_of_getElem? _ _ n (fun l hl => editFields_frame n aliases own edits h l hl hed)
+
+/-- bridge from the generated tables: if `ctorAliasesUnedited` holds, an in-place edit recorded
+for a class of the family of an alias never names the aliased field -/
+theorem unedited_of_ctorAliasesUnedited (al : List CtorAlias) (edits : List (String × String))
+    (h : ctorAliasesUnedited al edits = true) (a : CtorAlias) (ha : a ∈ al)
+    (e : String × String) (he : e ∈ edits) (hf : e.1 ∈ a.family) : e.2 ≠ a.field := by
+  have h1 := List.all_eq_true.mp (List.all_eq_true.mp h a ha) e he
+  intro heq
+  simp [List.contains_iff_mem, hf, heq] at h1
+
+/-- the hypothesis of `ctor_preserves_args` is needed: editing an aliased field in place edits
+the caller's object (the pinned `Surrogates.normalize_original_data`) -/
+example : editFields 1 [("original_data", 0)] (fun _ => 0) [10, 20] [("original_data", 99)]
+    = [99, 20] := by decide
+example : editFields 1 [] (fun _ => 0) [10, 20] [("original_data", 99)] = [10, 99] := by decide
+example : ctorAliasesUnedited [⟨"S.__init__", "original_data", "original_data", ["S"]⟩]
+    [("S", "original_data")] = false := by decide
+
 end Pyunicorn.Pure
 
 namespace Pyunicorn.Generated.StructC06
@@ -149,5 +236,24 @@ theorem effects_clean : effectsClean effects = true := by decide +kernel
 `editRestoreMask_id` / `editRestoreDiag_id` prove to be identities on the array content -/
 theorem restores_are_proved_forms :
     restores.all (fun r => r.2 = .maskInf || r.2 = .diagInfZero) = true := by decide +kernel
+
+/-- every written parameter of every compiled kernel, at every Python call site of the current
+source, receives an object made in the calling function (tables regenerated from the `.pyx`,
+`.c` and `.py` text on every run) -/
+theorem kernel_calls_clean : kernelCallsClean kernels kernelCalls = true := by decide +kernel
+
+/-- … hence, by `kernel_calls_preserve_shared`, no history of kernel executions of the current
+source changes a cached result, a field or a caller argument -/
+theorem generated_kernel_calls_preserve_shared {α : Type} (n : Nat)
+    (steps : List (KCall × (KArg → Nat) × (KArg → α)))
+    (hmem : ∀ s ∈ steps, s.1 ∈ kernelCalls)
+    (hfresh : ∀ s ∈ steps, ∀ a ∈ s.1.args, a.prov = .fresh → n ≤ s.2.1 a)
+    (h : List α) : (runSteps kernels h steps).take n = h.take n :=
+  kernel_calls_preserve_shared kernels kernelCalls kernel_calls_clean n steps hmem hfresh h
+
+/-- no field of the current source that is bound to a caller argument itself (no copy) is
+edited in place by any method of its class family -/
+theorem ctor_aliases_unedited : ctorAliasesUnedited ctorAliases fieldEdits = true := by
+  decide +kernel
 
 end Pyunicorn.Generated.StructC06
